@@ -167,6 +167,12 @@ def run(ctx):
     crosscheck(ctx, "C01.R7", INF + ".SchemaType.deriveSectionType",
                "ref_info.py", "deriveSectionType", INF + ".SchemaType",
                "deriving a type registers no implementer")
+    # the key type under which a section type's names are declared and its
+    # keys are matched: the type's own attribute, else its base's, else
+    # basic-key -- never the enclosing schema's
+    crosscheck(ctx, "C01.R7", BPq + ".get_sect_typeinfo", "ref_schema.py",
+               "get_sect_typeinfo", BPq,
+               "key type of a section type: own > base > basic-key")
     PCq = "ZConfig.cfgparser.ZConfigParser"
     for live, ref, what in (
             ("start_section", "start_section", "type and name are "
